@@ -51,6 +51,10 @@ def load(path, setup=True, config_path=None, **kw):
     if not _configured:
         quiet()
     kw.setdefault("no_output", True)
+    # the hermetic HOME holds code generated from exactly this working tree (vf.env); never let a worker
+    # regenerate into the shared directory (ANDES' checksum also depends on the ORDER of config keys, so
+    # an rc file with model sections would otherwise trigger regeneration)
+    kw.setdefault("autogen_stale", False)
     if config_path is None:
         kw.setdefault("default_config", True)
     else:
@@ -64,6 +68,7 @@ def new_system(config_path=None, **kw):
     if not _configured:
         quiet()
     kw.setdefault("no_output", True)
+    kw.setdefault("autogen_stale", False)
     if config_path is None:
         kw.setdefault("default_config", True)
     else:
